@@ -267,7 +267,9 @@ def classify(e, op, inp):
     if name == 'DomainError': return 'DomainError'
     if name in ('RuntimeError', 'ZeroDivisionError') and kind == 'sle' and ('no solute available' in msg or name == 'ZeroDivisionError'):
         return f'{name} (no solute in l + s)' if inp.get('solute_absent') else None
-    if name == 'FloatingPointError' or (name == 'RuntimeError' and any(m in msg for m in SOLVER_MESSAGES)):
+    # (a property model of the data package evaluated far outside its range by a wandering temperature solve raises RuntimeError '... computed an invalid value ...';
+    #  an exponential of the entropy iteration overflows: both are numerical failures inside a solver, bounded like the others)
+    if name in ('FloatingPointError', 'OverflowError') or (name == 'RuntimeError' and (any(m in msg for m in SOLVER_MESSAGES) or 'computed an invalid value' in msg)):
         ek = exc_key(e)
         return f'numerical failure {ek}' if (name == 'RuntimeError' or ek in NUMERIC_SITES) else f'unlisted numerical failure {ek}'
     return None
